@@ -33,6 +33,7 @@ func c09(c *Ctx) {
 	// what a GC pass writes (the demoted sticky flag, the deleted record) reaches the disk (shared rule)
 	c05R3(c)
 	c09R8(c)
+	c09R9(c)
 	// a handler that dead-locks against the queued collector stops collection for good (shared rule)
 	c04R7(c)
 	ruleArgSwap(c, "C04.R8", c.P.AllFuncs(), "the whole module (the pod key namespace/name identifies the record and the owner of an address)")
@@ -789,4 +790,43 @@ func c09R8(c *Ctx) {
 		}
 	}
 	c.Floor("C09.R8", "returns of the Release implementations", 4, n)
+}
+
+// R9: the manager answers "released" only after the backends were asked. Every nil-error return of
+// Manager.Release lies behind the loop that offers each resource to the interfaces; no test on the
+// request (an empty UID in a record written by an older build, …) answers for them. gcPods deletes the
+// record on that answer.
+func c09R9(c *Ctx) {
+	p := c.P
+	c.Rule("C09.R9", "Manager.Release returns success only after offering every resource of the request to the backends (must-pass: entry → loop over the request's resources → return nil)")
+	fn := p.Func(eniPkg, "Manager.Release")
+	if fn == nil {
+		c.Unres("C09.R9", "Manager.Release", "not found")
+		return
+	}
+	info := fn.Info()
+	sig := fn.Obj.Type().(*types.Signature)
+	var loop *ast.RangeStmt
+	resF := p.Field(eniPkg, "ReleaseRequest", "NetworkResources")
+	ast.Inspect(fn.Decl.Body, func(k ast.Node) bool {
+		if rs, ok := k.(*ast.RangeStmt); ok && loop == nil && resF != nil && fieldOf(info, derefExpr(fn, rs.X)) == resF {
+			loop = rs
+		}
+		return true
+	})
+	if loop == nil {
+		c.Bad("C09.R9", "Manager.Release iterates the request's resources", p.Pos(fn.Decl), fn.Key(), "for _, r := range req.NetworkResources", "not found")
+		return
+	}
+	q := NewPathQuery(p, fn, nil)
+	n := 0
+	for _, r := range declReturns(fn.Decl.Body) {
+		if guardedFailure(fn, sig, r) {
+			continue
+		}
+		n++
+		w := q.Escapes(nil, isExactly(r), func(k ast.Node) bool { return k == ast.Node(loop) || k == ast.Node(loop.X) || (k.Pos() >= loop.Pos() && k.End() <= loop.End()) }, nil)
+		c.Check(w == nil, "C09.R9", "Manager.Release: success only behind the loop over the resources", p.Pos(r), fn.Key(), "must-pass: range req.NetworkResources", "path: "+p.describePath(w))
+	}
+	c.Floor("C09.R9", "success returns of Manager.Release", 1, n)
 }
